@@ -97,10 +97,31 @@ def apply_op(op, r, m, n, tag, arg, arg2):
         check(sa == bytearray(ta), tag + ": slice content")
         s.chunked_reading_mode = True
         check(r.position == p0 and r.chunked_reading_mode == mode0 and r.remaining == rem0, tag + ": parent unaffected by its slice")
+        # the slice behaves like a reader over its sub-range in chunked mode too (its own breaks, not the parent's)
+        sc = r.slice(arg, arg2) if op == "slice" else r.slice()
+        tc = m.slice(arg, arg2) if op == "slice" else m.slice()
+        nsub = tc.n
+        sc.chunked_reading_mode = True
+        tc.set_mode(True)
+        same_state(sc, tc, nsub, tag + " slice(chunked)")
+        check(sc.get_byte() == tc.get_byte(), tag + ": slice chunked get_byte")
+        sc.next_chunk()
+        tc.next_chunk()
+        same_state(sc, tc, nsub, tag + " slice(next_chunk)")
+        check(sc.get_string() == tc.get_string(), tag + ": slice chunked get_string")
+        sc.next_chunk()
+        tc.next_chunk()
+        same_state(sc, tc, nsub, tag + " slice(next_chunk 2)")
+        check(r.position == p0 and r.chunked_reading_mode == mode0 and r.remaining == rem0, tag + ": parent unaffected by chunked reads of its slice")
         # slice of a slice
         s2 = r.slice(arg, arg2).slice(arg2, arg) if op == "slice" else r.slice().slice()
         t2 = m.slice(arg, arg2).slice(arg2, arg) if op == "slice" else m.slice().slice()
         check(s2.remaining == t2.remaining(), tag + ": slice of slice range")
+        s2.chunked_reading_mode = True
+        t2.set_mode(True)
+        same_state(s2, t2, t2.n, tag + " slice of slice (chunked)")
+        s2.chunked_reading_mode = False
+        t2.set_mode(False)
         check(s2.get_bytes(s2.remaining) == bytearray(t2.get_bytes(t2.remaining())), tag + ": slice of slice content")
 
 
